@@ -23,6 +23,7 @@ mod c14;
 mod c18;
 mod c19;
 mod c16;
+mod c20;
 mod enc;
 mod out;
 mod redisx;
@@ -75,6 +76,10 @@ fn main() {
         c15::child(&argv[2..]);
         return;
     }
+    if argv[1] == "--c20-child" {
+        c20::child(&argv[2..]);
+        return;
+    }
     let prop = argv[1].to_uppercase();
     let mut a = Args {
         seed: 1,
@@ -120,6 +125,7 @@ fn main() {
         "C18" => c18::run(&a),
         "C19" => c19::run(&a),
         "C16" => c16::run(&a),
+        "C20" => c20::run(&a),
         _ => {
             eprintln!("no harness for {}", prop);
             std::process::exit(2);
